@@ -310,7 +310,7 @@ def check_group(scripts, outs, crashes, label, model):
         sim, pos = GSim(), 0
         if len(steps) != len(toks) or len(groups) != len(toks) or len(fin) < 4:
             mism.append({"what": "group differential: the harness answered %d calls of %d (script %s)" % (len(steps), len(toks), s),
-                         "detail": {"script": s}})
+                         "detail": {"script": "G " + s}})
             continue
         stats["group_calls"] += len(toks)
         bad = False
@@ -321,7 +321,7 @@ def check_group(scripts, outs, crashes, label, model):
             else:
                 m = mo[pos - 1] if pos > 0 else [0, 0, 0, 0, 0, 0, 0, 0]
             if m == [-99] or [-99] in mo[:pos]:
-                mism.append({"what": "the model refuses a call of a legal script", "detail": {"script": s, "call": k}})
+                mism.append({"what": "the model refuses a call of a legal script", "detail": {"script": "G " + s, "call": k}})
                 bad = True
                 break
             if c[0] != "c" and c not in "aw":
@@ -342,7 +342,7 @@ def check_group(scripts, outs, crashes, label, model):
             if mfreed != (ix == -77) or (not mfreed and (ix, ir, inq) != (m[0], m[1], m[7])):
                 mism.append({"what": "do_xref_cnt / do_ref_cnt of a real group (and the references held on the notification queue) "
                                      "differ from Model/Refcnt.v after call #%d (%s)" % (k, c),
-                             "detail": {"script": s, "impl": [ix, ir, inq], "model": [m[0], m[1], m[7]], "model_freed": mfreed}})
+                             "detail": {"script": "G " + s, "impl": [ix, ir, inq], "model": [m[0], m[1], m[7]], "model_freed": mfreed}})
                 bad = True
                 break
         # API-level oracle on the end of the history, judged whether or not the counts agreed and independent of the model:
@@ -386,7 +386,7 @@ def check_group(scripts, outs, crashes, label, model):
                 stats["dispose_by_leave_or_internal_release"] += 1
         stats["finalized"] += last[2]
         if [fin[0]] + (fin[1:3] if fin[0] else [0, 0]) != [last[2]] + (last[3:5] if last[2] else [0, 0]):
-            mism.append({"what": "finalizer observation differs from the model", "detail": {"script": s, "impl": fin, "model": last}})
+            mism.append({"what": "finalizer observation differs from the model", "detail": {"script": "G " + s, "impl": fin, "model": last}})
     return mism, fails, stats
 
 
@@ -559,7 +559,7 @@ def check_lanes(scripts, outs, crashes, label, plans, exps):
         steps_total += len(got)
         if len(got) != len(exp):
             mism.append({"what": "lane differential: the harness answered %d calls of %d (script %s)" % (len(got), len(exp), s),
-                         "detail": {"script": s}})
+                         "detail": {"script": "L " + s}})
             continue
         for k, (g, e) in enumerate(zip(got, exp)):
             e = list(e)
@@ -571,7 +571,7 @@ def check_lanes(scripts, outs, crashes, label, plans, exps):
                                   "referenced / targeted (history %s, after call #%d)" % (s, k), "script": "L " + s})
                 else:
                     mism.append({"what": "do_xref_cnt / do_ref_cnt of a real queue / source differ from Refcnt.lane_ref after call #%d (%s)"
-                                         % (k, s[k]), "detail": {"script": s, "impl": g, "model": e}})
+                                         % (k, s[k]), "detail": {"script": "L " + s, "impl": g, "model": e}})
                 break
         # API-level oracle on the end of the history (judged whether or not the counts agreed): after the last reference is
         # dropped the finalizer runs once, on the target queue, with the context; the queue-specific destructor runs once;
@@ -830,37 +830,81 @@ def asan_runs(ctx, gs, ls):
         broken.append("ASan harness evaluated only %d of %d scripts" % (done, len(lines)))
     n = 0
     for i in range(6):
-        r = run_stress(exe, ctx.seed * 1000 + 500 + i, 60, [150, 400, 0][i % 3], env=env)
+        seed, permille = ctx.seed * 1000 + 500 + i, [150, 400, 0][i % 3]
+        r = run_retry([exe, "stress", str(seed), "60", str(permille)], 600, env=env)
         n += 1
         if r.returncode != 0:
             fails.append({"key": "asan:stress:%d" % i, "what": "AddressSanitizer / crash (rc=%s) in the last-release race stress: %s" %
-                          (r.returncode, " ".join((r.stderr or "").split())[:500]), "label": "asan-seed%d" % (ctx.seed * 1000 + 500 + i), "asan": True})
+                          (r.returncode, " ".join((r.stderr or "").split())[:500]), "label": "asan-seed%d" % seed, "asan": True,
+                          "seed": seed, "rounds": 60, "permille": permille})
         elif sum(1 for l in r.stdout.split("\n") if l.startswith("R ")) != 60:
             broken.append("ASan stress run %d produced no complete output" % i)
     return fails, "ASan build: %d scripts, %d stress runs, %d reports" % (len(lines), n, len(fails)), broken
 
 
+ASAN_ENV = dict(os.environ, ASAN_OPTIONS="detect_leaks=0:abort_on_error=0:halt_on_error=1:exitcode=99")
+
+
 def replay(ctx, obj):
+    """re-execute every recorded failing input with its recorded parameters against the current build and re-judge it.
+    rc 1: at least one reproduces; 0: none reproduces; 2: nothing could be executed (proof / build / translation entries:
+    only a full ./check re-establishes those)"""
     exe, msg = common.build_harness("c17_refs", ["c17_refs.c"], whitebox=True, extra=["-I" + common.VERIF + "/harness"])
-    for f in obj.get("failures", []):
-        print("recorded failure:", f.get("what"))
-        if f.get("script"):
-            sc = f["script"]
-            r = common.run([exe, "seq"], input=sc + "\n", timeout=120)
-            print("  re-run of %s: rc=%s output: %s %s" % (sc, r.returncode, r.stdout.strip()[-300:], (r.stderr or "").strip()[-200:]))
-            if sc.startswith("G "):
-                try:
-                    mo = eval_group_model([sc[2:]])[0]
-                    print("  model (xref, ref, nfin, finctx, finq, freed, crash, queue refs) per call:", mo)
-                except Exception as e:  # noqa
-                    print("  model evaluation failed:", e)
-        elif f.get("label", "").startswith("seed"):
-            seed = int(f["label"].replace("seed", ""))
-            r = run_stress(exe, seed, 25, f.get("permille", 150))
-            f2, _, _ = analyse_stress(r.stdout, f["label"], r.returncode, r.stderr)
-            print("  re-run of stress seed %d: %d failures" % (seed, len(f2)))
-            for x in f2[:5]:
-                print("   ", x["what"])
+    if exe is None:
+        print("harness build failed, nothing could be executed: " + msg[-500:])
+        return 2
+    asan_exe = None
+    executed, reproduced = 0, 0
+    items = [("failure", f, f) for f in obj.get("failures", [])]
     for b in obj.get("broken", []):
-        print("no longer checks:", b)
-    return 1
+        d = b.get("detail") if isinstance(b, dict) else None
+        if isinstance(b, dict) and b.get("what") == "correspondence" and isinstance(d, dict):
+            inner = d.get("detail") if isinstance(d.get("detail"), dict) else {}
+            items.append(("mismatch", dict(inner, what=d.get("what", "")), b))
+        else:
+            print("no longer checks (not re-executable here; only a full ./check C17 re-establishes it):",
+                  (b.get("what") if isinstance(b, dict) else ""), str(d)[:400])
+    for kind, f, _orig in items:
+        print("recorded %s: %s" % (kind, str(f.get("what"))[:400]))
+        use, env = exe, None
+        if f.get("asan"):
+            if asan_exe is None:
+                asan_exe, amsg = asan_build()
+                if asan_exe is None:
+                    print("  ASan binary could not be built, not executed: " + amsg[-300:])
+                    continue
+            use, env = asan_exe, ASAN_ENV
+        sc = f.get("script")
+        if sc and sc[:2] in ("G ", "L "):
+            sc = sc.split()[0] + " " + sc.split()[1]
+            executed += 1
+            if f.get("asan"):
+                outs, crashes = run_scripts(use, [sc], env=env)
+                m, fl = [], [{"what": "ASan / crash rc=%s %s" % (c[1], " ".join(c[2].split())[:300])} for c in crashes]
+            elif sc.startswith("G "):
+                m, fl, _, _, _, _ = seq_part(use, ctx, 0, 0, label="replay", gs=[sc[2:]], ls=[])
+            else:
+                m, fl, _, _, _, _ = seq_part(use, ctx, 0, 0, label="replay", gs=[], ls=[sc[2:]])
+            if m or fl:
+                reproduced += 1
+                for x in (fl + m)[:4]:
+                    print("  REPRODUCES:", str(x.get("what"))[:400], str(x.get("detail", ""))[:300])
+            else:
+                print("  does not reproduce (script %s)" % sc)
+        elif "seed" in f and "rounds" in f and "permille" in f:
+            executed += 1
+            m, fl, _, _ = stress_part(use, ctx, [(int(f["seed"]), int(f["rounds"]), int(f["permille"]))], env=env, tag="replay")
+            if m or fl:
+                reproduced += 1
+                for x in (fl + m)[:4]:
+                    print("  REPRODUCES:", str(x.get("what"))[:400], str(x.get("detail", ""))[:300])
+            else:
+                print("  does not reproduce (stress seed %s, %s rounds, perturbation %s permille: all rounds finalised once, all "
+                      "traces accepted)" % (f["seed"], f["rounds"], f["permille"]))
+        else:
+            print("  not re-executable (no recorded input in this entry); only a full ./check C17 re-establishes it")
+    if executed == 0:
+        print("nothing could be executed")
+        return 2
+    print("%d recorded input(s) re-executed, %d reproduce(s)" % (executed, reproduced))
+    return 1 if reproduced else 0
